@@ -34,6 +34,12 @@ def Payload.encLen (p : Payload) : Nat :=
   4 + 1 + 1 + (4 + bytesLen p.key) + (4 + bytesLen p.val) + 2 +
     (p.hdrs.map fun kv => 2 + kv.1.utf8ByteSize + 4 + bytesLen kv.2).sum
 
+/-- `encode(m)` succeeds: every header key fits the 16-bit length prefix of `PutString`
+(`len(in) > math.MaxInt16` is refused). Keys and values have 32-bit prefixes and cannot exceed
+them within the NATS payload limit. -/
+def Payload.encodable (p : Payload) : Bool :=
+  !(p.hdrs.any (fun kv => Gen.Log.putStringLenCmp.evalNat kv.1.utf8ByteSize 32767))
+
 /-- One message as stored: the 28-byte message-set header fields plus the payload. -/
 structure Rec where
   offset : Int
@@ -206,6 +212,10 @@ def stamp (occ : Bool) (base : Int) : Nat → List Msg → Res (List Rec)
   | _, [] => .ok []
   | i, m :: ms =>
     let offset := base + i
+    -- `encode(m)` fails for a header key longer than math.MaxInt16 bytes (PutString)
+    if !m.body.encodable then
+      (if Gen.Log.encodeErrPanics then .panic else .err "encode")
+    else
     if occ && Gen.Log.occWaiveCmp.evalInt m.expected (-1) && Gen.Log.occExpectedCmp.evalInt offset m.expected then .err "incorrect-offset"
     else do
       let rest ← stamp occ base (i + 1) ms
